@@ -65,8 +65,13 @@ static void one_case(const ClassDef& def, const Space& sp, uint64_t id, const st
   Fp fa, fb;
   def.getters(a.get(), fa);
   def.getters(b.get(), fb);
-  std::string grp, d = fp_diff(fa, fb, &grp);
-  if (!d.empty()) { R.violation(pre + grp, "getter differs after stream round trip: " + d + where); R.outcome("getter-mismatch:" + grp); return; }
+  std::string grp, d;
+  {
+    // every group of getters that differs is reported (a known defect in one group must not hide another group)
+    auto mm = fp_diff_all(fa, fb);
+    for (auto& m : mm) { R.violation(pre + m.group, "getter differs after stream round trip: " + m.text + where); R.outcome("getter-mismatch:" + m.group); }
+    if (!mm.empty()) return;
+  }
   if (def.probe)
   {
     R.stage("probe");
